@@ -10,7 +10,7 @@
    consumed with [del], and the dict built in main.py keeps only rows whose
    PROPKA label starts with the residue name. *)
 From Coq Require Import String Ascii List Bool ZArith QArith PArith.
-From PV Require Import Lib.Strings Lib.Decimal Model.ForceField Model.Topology.
+From PV Require Import Lib.Strings Lib.Decimal Model.ForceField Model.Topology Model.States.
 Import ListNotations.
 Local Open Scope string_scope.
 
@@ -559,6 +559,109 @@ Definition sides_at (ph : Q) (r : tspec) : sides :=
 Definition total_charge (resq : ffid -> rtype -> position -> sides -> Z) (ff : ffid) (ph : Q) (rs : list tspec) : Z :=
   fold_right (fun r acc => (resq ff (ts_type r) (ts_pos r) (sides_at ph r) + acc)%Z) 0%Z rs.
 
+
+(* ---- the charge that reaches the output: decide -> state -> C02's state row -> force field ---- *)
+
+(* C02's state table (Generated/States.v arows) lists, per (class, side-chain
+   state, terminus kind), the ffname the real set_state produces and the
+   alternatives of the FINAL atom-name set (templates + runtime patches + the
+   documented wrinkles: one carboxyl H of ASH/GLH, N-terminal PRO, a one-residue
+   chain carrying OXT/HO under an N* name). The output of a residue in a state is
+   what Biomolecule.apply_force_field does with that atom set: an atom without
+   parameters under the state name is reported missing and omitted, the others
+   carry the force field's charges. *)
+Definition cls_of (t : rtype) : aclass :=
+  match t with
+  | ALA => C_ALA | ARG => C_ARG | ASN => C_ASN | ASP => C_ASP | CYS => C_CYS | GLN => C_GLN
+  | GLU => C_GLU | GLY => C_GLY | HIS => C_HIS | ILE => C_ILE | LEU => C_LEU | LYS => C_LYS
+  | MET => C_MET | PHE => C_PHE | PRO => C_PRO | SER => C_SER | THR => C_THR | TRP => C_TRP
+  | TYR => C_TYR | VAL => C_VAL
+  end.
+
+(* side-chain state(s) after the patches (a free cysteine; neutral HIS is HID or HIE) *)
+Definition states_of (t : rtype) (ps : list patchname) : list base :=
+  match t with
+  | ARG => [if has_patch P_AR0 ps then B_AR0 else B_ARG]
+  | ASP => [if has_patch P_ASH ps then B_ASH else B_ASP]
+  | CYS => [if has_patch P_CYM ps then B_CYM else B_CYS]
+  | GLU => [if has_patch P_GLH ps then B_GLH else B_GLU]
+  | HIS => if has_patch P_HIP ps then [B_HIP] else [B_HID; B_HIE]
+  | LYS => [if has_patch P_LYN ps then B_LYN else B_LYS]
+  | TYR => [if has_patch P_TYM ps then B_TYM else B_TYR]
+  | _ => [base_of_class (cls_of t)]
+  end.
+
+(* terminus kind: a one-residue chain carries both termini (its name shows only the N side) *)
+Definition tkind_of (t : rtype) (pos : position) (ps : list patchname) : tkind :=
+  let nn := has_patch P_NEUTRAL_NTERM ps && match t with PRO => false | _ => true end in
+  let nc := has_patch P_NEUTRAL_CTERM ps in
+  match pos with
+  | PosMid => T_I
+  | PosN => if nn then T_NN else T_N
+  | PosC => if nc then T_NC else T_C
+  | PosNC => match nn, nc with
+             | false, false => T_N_C | false, true => T_N_NC
+             | true, false => T_NN_C | true, true => T_NN_NC
+             end
+  end.
+
+Definition tkind_eqb (a b : tkind) : bool :=
+  match a, b with
+  | T_I, T_I | T_N, T_N | T_C, T_C | T_NN, T_NN | T_NC, T_NC
+  | T_N_C, T_N_C | T_N_NC, T_N_NC | T_NN_C, T_NN_C | T_NN_NC, T_NN_NC => true
+  | _, _ => false
+  end.
+
+Fixpoint ids_eqb (a b : list id) : bool :=
+  match a, b with
+  | [], [] => true
+  | x :: a', y :: b' => Pos.eqb x y && ids_eqb a' b'
+  | _, _ => false
+  end.
+
+Section Output.
+  Variable arows : list arow.                 (* Generated.States.arows *)
+  Variable never_final : list (id * list id). (* Generated.Titration.never_final *)
+  Variable m : ffmap.                         (* FF_<ff>.built *)
+
+  Definition rows_for (t : rtype) (pos : position) (ps : list patchname) : list arow :=
+    filter (fun r => base_eqb (base_of_class (ar_cls r)) (base_of_class (cls_of t))
+                     && existsb (base_eqb (ar_state r)) (states_of t ps)
+                     && tkind_eqb (ar_term r) (tkind_of t pos ps)) arows.
+
+  (* the alternatives the finished residue can really have: hydrogen
+     optimisation keeps the *2 carboxyl hydrogen of ASH/GLH (never_final) *)
+  Definition real_alts (r : arow) : list (list id) :=
+    let nf := match dget never_final (ar_ff r) with Some l => l | None => [] end in
+    match filter (fun alt => negb (existsb (fun a => mem_id a nf) alt)) (ar_alts r) with
+    | [] => ar_alts r
+    | l => l
+    end.
+
+  (* apply_force_field on one residue: (sum of the charges of the atoms that
+     have parameters under [res], the atoms that have none) *)
+  Fixpoint assigned (res : id) (atoms : list id) : Z * list id :=
+    match atoms with
+    | [] => (0%Z, [])
+    | a :: rest =>
+        let (q, miss) := assigned res rest in
+        match lookup m res a with
+        | Some e => ((e_q e + q)%Z, miss)
+        | None => (q, a :: miss)
+        end
+    end.
+
+  Definition state_vals (t : rtype) (pos : position) (ps : list patchname) : list (Z * list id) :=
+    flat_map (fun r => map (assigned (ar_ff r)) (real_alts r)) (rows_for t pos ps).
+
+  (* defined when every row and alternative of the state gives the same result *)
+  Definition state_out (t : rtype) (pos : position) (ps : list patchname) : option (Z * list id) :=
+    match state_vals t pos ps with
+    | [] => None
+    | v :: rest =>
+        if forallb (fun w => Z.eqb (fst v) (fst w) && ids_eqb (snd v) (snd w)) rest then Some v else None
+    end.
+End Output.
 
 (* ---- show functions for the correspondence runs --------------------------------- *)
 
